@@ -29,14 +29,16 @@ ASSUMPTIONS = [
     "catalog expectations (KDim, ranks, exact Krylov matrix, spectra with multiplicities, step counts, shapes) come "
     "from TLC; for random families KDim is known by construction (dimension of the invariant subspace spanned by the "
     "chosen eigenvectors, closed under conjugation for real matrices) and is used only if cond(V) is moderate",
-    "m+1 orthonormal columns are demanded for max_iters = m <= n (n+1 for m > n: 'same factorisation as n steps'), "
-    "exactly as the statement says; where the Krylov space is exhausted (KDim <= min(m, n)) this cannot hold for the "
-    "trailing columns and the violation carries exhausted=true, trailing_only=true",
+    "orthonormality is demanded of the first min(max_iters+1, KDim) columns (all m+1 while the Krylov space is not "
+    "exhausted); once it is exhausted (KDim <= min(m, n): breakdown, or column n+1 for m >= n) every further column "
+    "of Q, every further column of H and every row of H below the breakdown entry must be exactly zero (clause "
+    "'padding'), and A Q[:, :m] = Q H is checked on all m columns",
     "stopping at breakdown (upper bound of the step count, zero padding after breakdown) is asserted only when "
     "tol >= 1e3*eps(dtype); 'fewer steps than min(max_iters, n, KDim)' is always asserted",
     "batched start vectors: buffers are shared, so the contract is steps = min(max_iters, n, max_b KDim_b); the "
-    "relation, Hessenberg form, first column, span and orthonormality of the leading min(max_iters+1, KDim_b) "
-    "columns are checked per element; zero padding per element only if all KDim_b agree",
+    "relation, Hessenberg form, first column, span, orthonormality of the leading min(max_iters+1, KDim_b) columns "
+    "and zero padding after the element's own exhaustion are checked per element (an element that goes on after its "
+    "exhaustion is reported as padding/continued_after_exhaustion)",
     "span test for random cases against a harness reference basis (two-pass re-orthogonalised Arnoldi, complex128) "
     "for the leading Krylov spaces that are well defined in the working precision",
     "start vectors are non-zero; v and A have the same dtype; use_householder=False (the default)",
@@ -106,11 +108,15 @@ def check_single(A, v, Qd, Hd, m, tol, dt, kdim, detectable, K=None, assert_coun
             count_bad = True
         elif s_obs > s_exp and detectable and s_obs <= cap:
             out.append(("column_count", f"{s_obs} Arnoldi steps, expected min(max_iters, n, KDim) = {s_exp} (KDim={kdim})",
-                        {"excess": "more"}))
+                        {"excess": "more", "start_in_nullspace": bool(getattr(hs, "scale", sA) <= 1e-8 * sA)}))
             count_bad = True
     # more steps than due (reported above when the stop is detectable): the remaining clauses are evaluated on the
     # leading part that is due
     trunc = s_exp is not None and s_obs > s_exp
+    if trunc and not assert_count and detectable and s_obs <= cap:
+        # element of a batch: the batch may go on, this element must not (zero columns after its own exhaustion)
+        out.append(("padding", f"element continued for {s_obs} steps after its Krylov space was exhausted at "
+                    f"{s_exp} (non-zero columns of H up to {s_obs - 1})", {"which": "continued_after_exhaustion"}))
     me = s_exp if trunc else m
     if trunc:
         Q, H = Q[:, :me + 1], H[:me + 1, :me]
@@ -119,32 +125,25 @@ def check_single(A, v, Qd, Hd, m, tol, dt, kdim, detectable, K=None, assert_coun
     d = float(np.abs(Q[:, 0] - vv / np.linalg.norm(vv)).max())
     if d > rt:
         out.append(("first_column", f"|Q[:,0] - v/||v||| = {kf.fmt(d)}", {}))
-    # orthonormal columns: m+1 for m <= n, the n-step factorisation for m > n
+    # orthonormal columns: the first min(m+1, KDim) (m+1 while the Krylov space is not exhausted); what follows an
+    # exhausted space must be zero (clause "padding" below)
     orth_lost = None
     creq = min(cap, me) + 1
-    if kdim is None:
-        creq = 1      # unknown Krylov dimension: nothing can be demanded beyond the first column
-    G = Q[:, :creq].conj().T @ Q[:, :creq]
-    d = float(np.abs(G - np.eye(creq)).max())
+    lead = 1 if kdim is None else min(ortho, creq)
+    G = Q[:, :lead].conj().T @ Q[:, :lead]
+    d = float(np.abs(G - np.eye(lead)).max())
     if d > rt:
-        lead = creq if ortho is None else min(ortho, creq)
-        dl = float(np.abs(G[:lead, :lead] - np.eye(lead)).max())
-        bad = [j for j in range(creq) if np.abs(G[:, j] - np.eye(creq)[:, j]).max() > rt]
-        # first column that is not orthonormal to its predecessors: single-pass Gram-Schmidt loses orthogonality
-        # gradually (late onset), a wrong inner product or recurrence fails from the start
-        first = next((j for j in range(lead) if np.abs(G[:j + 1, j] - np.eye(creq)[:j + 1, j]).max() > rt), None)
-        onset, ref_loss = None, None
-        if first is not None:
-            # the documented mechanism is ONE modified Gram-Schmidt pass: if the harness' own single-pass run in the
-            # same precision loses orthogonality to the same order, the loss is inherent to the mechanism
-            ref_loss = kf.ref_mgs_loss(A, v, lead)
-            onset = "mgs" if (ref_loss > rt / 100 and dl <= 100 * ref_loss) else "other"
+        bad = [j for j in range(lead) if np.abs(G[:, j] - np.eye(lead)[:, j]).max() > rt]
+        first = next((j for j in range(lead) if np.abs(G[:j + 1, j] - np.eye(lead)[:j + 1, j]).max() > rt), None)
+        # the documented mechanism orthogonalises by modified Gram-Schmidt: if the harness' own single-pass run in
+        # the same precision loses orthogonality to the same order, the loss is inherent to that mechanism
+        ref_loss = kf.ref_mgs_loss(A, v, lead)
+        onset = "mgs" if (ref_loss > rt / 100 and d <= 100 * ref_loss) else "other"
         orth_lost = onset
-        out.append(("orthonormal", f"max|Q^H Q - I| = {kf.fmt(d)} on the first {creq} columns (bad columns {bad}, "
-                    f"norms {[float(kf.fmt(abs(G[j, j]) ** .5)) for j in bad[:4]]}; leading {lead}: {kf.fmt(dl)})",
-                    {"trailing_only": bool(ortho is not None and dl <= rt and lead < creq), "exhausted": bool(exhausted),
-                     "n_bad": len(bad), "onset": onset, "first_bad": first,
-                     "ref_mgs_loss": None if ref_loss is None else float(kf.fmt(ref_loss))}))
+        out.append(("orthonormal", f"max|Q^H Q - I| = {kf.fmt(d)} on the first {lead} columns (min(m+1, KDim)); bad columns "
+                    f"{bad[:12]}, norms {[float(kf.fmt(abs(G[j, j]) ** .5)) for j in bad[:4]]}",
+                    {"trailing_only": False, "exhausted": bool(exhausted), "n_bad": len(bad), "onset": onset,
+                     "first_bad": first, "ref_mgs_loss": float(kf.fmt(ref_loss))}))
     # upper Hessenberg, non-negative real sub-diagonal
     msgs = []
     Hfull = Hd.astype(np.complex128)
@@ -167,9 +166,17 @@ def check_single(A, v, Qd, Hd, m, tol, dt, kdim, detectable, K=None, assert_coun
         # the column written by the last step (index = number of steps made) is round-off/clip(norm, tol/2) while
         # the matching column of H was never computed
         trailing = badc == [s_ref] and s_ref < me and (exhausted or s_exp is None)
+        # the loop stops when norm <= tol*||A q_1|| but the stored vector is zeroed only when norm <= tol/2: in
+        # between, a unit-norm vector of round-off is kept while the matching column of H is never computed
+        between = False
+        if trailing and 1 <= s_ref <= Hfull.shape[1]:
+            r = abs(Hfull[s_ref, s_ref - 1])
+            sc = float(np.sqrt(abs(Hfull[0, 0]) ** 2 + (abs(Hfull[1, 0]) ** 2 if Hfull.shape[0] > 1 else 0.0)))
+            between = bool(tol / 2. < r <= tol * sc * (1 + 1e-3))
         out.append(("relation", f"max|A Q[:, :m] - Q H| = {kf.fmt(d)} (||A||={kf.fmt(sA)}) in columns {badc[:6]} "
                     f"after {s_ref} steps; |Q[:, {badc[0]}]| = {kf.fmt(np.linalg.norm(Q[:, badc[0]]))}",
-                    {"which": "trailing_column" if trailing else "steps", "exhausted": bool(exhausted)}))
+                    {"which": "trailing_column" if trailing else "steps", "exhausted": bool(exhausted),
+                     "between_thresholds": between}))
     # padding: nothing after the last step that was due
     if s_exp is not None and assert_padding and not count_bad and (detectable or s_exp == cap):
         msgs = []
@@ -177,8 +184,11 @@ def check_single(A, v, Qd, Hd, m, tol, dt, kdim, detectable, K=None, assert_coun
             msgs.append(f"H[:, {s_exp}:] non-zero")
         if np.abs(H[s_exp + 1:, :]).max(initial=0.0) > 0:
             msgs.append(f"H[{s_exp + 1}:, :] non-zero")
-        if np.abs(Q[:, s_exp + 1:]).max(initial=0.0) > 0:
-            msgs.append(f"Q[:, {s_exp + 1}:] non-zero")
+        z0 = s_exp if (exhausted and detectable) else s_exp + 1   # the column after an exhausted space is zero too
+        if np.abs(Q[:, z0:]).max(initial=0.0) > 0:
+            nz = [j for j in range(z0, Q.shape[1]) if np.abs(Q[:, j]).max() > 0]
+            msgs.append(f"Q[:, {z0}:] non-zero (columns {nz[:6]}, norms "
+                        f"{[float(kf.fmt(np.linalg.norm(Q[:, j]))) for j in nz[:4]]})")
         if msgs:
             out.append(("padding", "; ".join(msgs) + f" after {s_exp} steps", {}))
     if s_exp is not None and exhausted and s_exp >= 1 and s_obs >= s_exp and (detectable or s_exp == n):
@@ -393,7 +403,7 @@ def run_family(item, A, vs, kdims, Ks, wants, etol_rel, detect_ok, ms, hss=None)
                                             "arnoldi", dt, tol))
                 for b in range(nb):
                     res = check_single(A_t, V[:, b], QA[b], HA[b], m, tol, dt, kdims[b], detectable, Ks[b],
-                                       assert_count=False, assert_padding=uniform, steps=bsteps, hs=hss[b])
+                                       assert_count=False, assert_padding=True, steps=None, hs=hss[b])
                     res = res[0] if isinstance(res, tuple) else res
                     for cl, de, ex in res:
                         ex = dict(ex)
